@@ -20,7 +20,7 @@ from bitproto._ast import (
 )
 from bitproto.errors import InternalError
 from bitproto.renderer.formatter import CaseStyleMapping, Formatter
-from bitproto.utils import final, override, upper_case
+from bitproto.utils import final, int_literal, override, upper_case
 
 
 class PyFormatter(Formatter):
@@ -66,7 +66,7 @@ class PyFormatter(Formatter):
 
     @override(Formatter)
     def format_int_value(self, value: int) -> str:
-        return "{0}".format(value)
+        return int_literal(value)
 
     @override(Formatter)
     def format_bool_type(self) -> str:
